@@ -94,6 +94,12 @@ def runC12Case (c : CaseBlock) : IO Unit := do
     let vF2 := out1 op "fwnew2"
     if vF2 != "-" && vF != "hang" && vF2 != vF then
       IO.println s!"mon C12 FAIL {c.id} framework-new-depends-on-earlier-calls first={vF} same-slice-again={vF2}"
+    -- Framework::new on [ring, m] and [m, ring] with a valid eight-state ring: the same judgement as for m alone
+    match outOf op "fwnew3" with
+    | some [x, y] =>
+      if (vF == "ok" || vF == "err") && (x != vF || y != vF) then
+        IO.println s!"mon C12 FAIL {c.id} framework-new-depends-on-neighbours alone={vF} after-a-valid-machine={x} before-a-valid-machine={y}"
+    | _ => pure ()
     -- "a machine obtained from any of them can always be run": the harness drives every framework the
     -- implementation built through a scripted history; the same fact is part of C01 (totality)
     let vR := out1 op "run"
